@@ -13,6 +13,7 @@ import (
 	"github.com/samsarahq/go/oops"
 	"github.com/samsarahq/thunder/batch"
 	"github.com/samsarahq/thunder/diff"
+	"github.com/samsarahq/thunder/internal/verifhook"
 	"github.com/samsarahq/thunder/reactive"
 )
 
@@ -101,6 +102,7 @@ type mutateMessage struct {
 }
 
 func (c *conn) writeOrClose(out outEnvelope) {
+	verifhook.Yield("server.write.enter")
 	c.writeMu.Lock()
 	defer c.writeMu.Unlock()
 
@@ -230,6 +232,7 @@ func (c *conn) handleSubscribe(in *inEnvelope) error {
 
 		d := diff.Diff(computationInput.Previous, current)
 		previous = current
+		verifhook.Yield("server.subscribe.diffed")
 
 		if d != nil {
 			c.writeOrClose(outEnvelope{
@@ -366,6 +369,7 @@ func (c *conn) rerunSubscriptionsImmediately() {
 }
 
 func (c *conn) closeSubscription(id string) {
+	verifhook.Yield("server.closeSubscription.enter")
 	c.mu.Lock()
 	defer c.mu.Unlock()
 
@@ -377,6 +381,7 @@ func (c *conn) closeSubscription(id string) {
 }
 
 func (c *conn) closeSubscriptions() {
+	verifhook.Yield("server.closeSubscriptions.enter")
 	c.mu.Lock()
 	defer c.mu.Unlock()
 
